@@ -49,7 +49,7 @@ Fixpoint trace_safe (file_len : N) (fresh : list range) (whole : bool) (t : list
 
 (* Completion: the run ended with Finished. *)
 Definition trace_complete (t : list tev) : bool :=
-  match rev t with TFinished :: _ => true | _ => false end.
+  match last t TStall with TFinished => true | _ => false end.
 
 Definition trace_rows (t : list tev) : N :=
   fold_right (fun e acc => match e with TData n | TReader n => n + acc | _ => acc end) 0 t.
@@ -84,11 +84,11 @@ Fixpoint parse_trace (fuel : nat) (l : list Z) : option (list (tev * Z)) :=
       match l with
       | [] => Some []
       | 1%Z :: bb :: k :: l' =>
-          if (Z.of_nat (length l') <? 2 * k)%Z then None else
+          if (1048576 <=? k)%Z then None else
           match take_ranges (Z.to_nat k) l' with
           | Some (rs, rest) => option_map (cons (TNeed rs, bb)) (parse_trace f rest) | None => None end
       | 2%Z :: bb :: k :: l' =>
-          if (Z.of_nat (length l') <? 2 * k)%Z then None else
+          if (1048576 <=? k)%Z then None else
           match take_ranges (Z.to_nat k) l' with
           | Some (rs, rest) => option_map (cons (TPush rs, bb)) (parse_trace f rest) | None => None end
       | 3%Z :: bb :: n :: l' => option_map (cons (TData (Z.to_N n), bb)) (parse_trace f l')
